@@ -157,6 +157,17 @@ impl Monitor for OrderMonitor {
 					}
 				}
 			},
+			Obs::Tap(Ev::PersistUpdate { node, chan, update_id: None, latest, in_progress }) => {
+				// a full-monitor write: everything applied to the monitor so far is durable with it
+				if !*in_progress {
+					let s = self.st.entry((*node, *chan)).or_default();
+					let done: Vec<u64> = s.incomplete.iter().filter(|i| **i <= *latest).cloned().collect();
+					for id in done {
+						s.incomplete.remove(&id);
+						s.completed.insert(id);
+					}
+				}
+			},
 			Obs::Tap(Ev::Completed { node, chan, update_id }) => {
 				let s = self.st.entry((*node, *chan)).or_default();
 				if s.new_handed && *update_id == s.new_id {
